@@ -160,13 +160,13 @@ theorem C13_single_leaf : C13_single_leaf_full := fun fuel ss t a b wa wb hd =>
     object `.ref pkg name {}` whose type is a struct), every document that decodes, decodes to a
     well-typed value. -/
 theorem C13_decode_wt (ss : Schemas) (hs : schemasOk ss = true) (fd : Nat) (t : Ty) (j : Json)
-    (a : GoVal) (hp : posOk ss t = true) (hd : goDecode fd ss t j = .ok a) :
+    (a : GoVal) (hp : fposOk ss t = true) (hd : goDecode fd ss t j = .ok a) :
     wt (fd + 1) ss t a = true :=
   goDecode_wt ss hs fd t j a hp hd
 
 /-- the laws on a schema of the fragment, with `wt` discharged -/
 theorem C13_equivalence_schema (ss : Schemas) (hs : schemasOk ss = true) (fd : Nat) (t : Ty)
-    (hp : posOk ss t = true) (ja jb jc : Json) (a b c : GoVal)
+    (hp : fposOk ss t = true) (ja jb jc : Json) (a b c : GoVal)
     (ha : goDecode fd ss t ja = .ok a) (hb : goDecode fd ss t jb = .ok b)
     (hc : goDecode fd ss t jc = .ok c)
     (ta : timesShared a = true)
@@ -183,7 +183,7 @@ theorem C13_equivalence_schema (ss : Schemas) (hs : schemasOk ss = true) (fd : N
    C13_trans_partial fd _ ss t ja jb jc a b c ha hb hc wa wb wc na nb⟩
 
 theorem C13_encoding_schema (ss : Schemas) (hs : schemasOk ss = true) (fd : Nat) (t : Ty)
-    (hp : posOk ss t = true) (ja jb : Json) (a b : GoVal)
+    (hp : fposOk ss t = true) (ja jb : Json) (a b : GoVal)
     (ha : goDecode fd ss t ja = .ok a) (hb : goDecode fd ss t jb = .ok b) :
     (timesShared a = true → unionsAligned (fd + 1) ss t a b = true → goEncode a = goEncode b →
       goEquals (fd + 1) ss t a b = true) ∧
@@ -305,6 +305,30 @@ theorem C13_enc_eq_implies_equals_counterexample_union : ¬ C13_enc_eq_implies_e
 
 example : schemasOk ssU = true := by decide
 example : unionsAligned 8 ssU tR uNil uEmpty = false := by decide
+
+/-! ### nullable reference to a named array (`cc?: Recipients`, Go `*Recipients`) -/
+
+namespace C13W
+
+/-- `Recipients = []string`, `Mail { to: Recipients, cc?: *Recipients }` -/
+def ssA : Schemas := [{ pkg := "p", objects := [
+  ("Recipients", { name := "Recipients", selfPkg := "p", selfName := "Recipients", ty := .array strTy {} }),
+  ("Mail", { name := "Mail", selfPkg := "p", selfName := "Mail",
+             ty := .struct [{ name := "to", ty := .ref "p" "Recipients" {}, required := true },
+                            { name := "cc", ty := nref "Recipients", required := false }] [] none {} })] }]
+
+def tMail : Ty := .ref "p" "Mail" {}
+def mail (cc : GoVal) : GoVal := .struct [("to", false, .slice [.str "a"]), ("cc", true, cc)]
+
+end C13W
+
+example : schemasOk ssA = true := by decide
+example : goDecode 8 ssA tMail (.obj [("to", .arr [.str "a"]), ("cc", .arr [.str "x", .str "y"])])
+    = .ok (mail (.slice [.str "x", .str "y"])) := by rfl
+/-- the elements behind the pointer are compared pairwise; a nil pointer differs from an empty list -/
+example : goEquals 9 ssA tMail (mail (.slice [.str "x", .str "y"])) (mail (.slice [.str "x", .str "z"])) = false := by decide
+example : goEquals 9 ssA tMail (mail .nil) (mail (.slice [])) = false := by decide
+example : goEquals 9 ssA tMail (mail (.slice [.str "x"])) (mail (.slice [.str "x"])) = true := by decide
 
 /-! ## non-vacuity: the hypotheses of the partial theorems are satisfiable by interesting values -/
 
